@@ -386,6 +386,43 @@ Definition builtin (f : string) (args : list pv) : res pv :=
       if Nat.eqb (length l) 16
       then Ok (PStr (join "-"%string [hx_ 0 4; hx_ 4 6; hx_ 6 8; hx_ 8 10; hx_ 10 16]%nat))
       else Err (OtherError TypeError)
+  (* ComponentProperty.from_data(selector, data) of pyipmi/hpm.py with the five property classes and
+     VersionField(data) - hand model *)
+  | "component_property"%string, [PInt sel; v] =>
+      do l <- bytes_of_pv v;
+      let version := fun (cls : string) =>
+        match l with
+        | [] => Ok (PObj cls [])                                   (* `if (data):` false: nothing decoded *)
+        | [_] => Err (OtherError IndexError)
+        | ma :: mi :: _ => do m <- bcd_minor mi;
+                           Ok (PObj cls [("version"%string,
+                                          PObj "VersionField" [("major"%string, PInt (Z.of_N ma)); ("minor"%string, PInt m)])])
+        end in
+      if sel =? 0 then
+        match l with
+        | [] => Ok (PObj "ComponentPropertyGeneral" [])
+        | cap :: _ =>
+            let b := fun (i : N) => N.testbit cap i in
+            let rb := (cap mod 4)%N in
+            let opt := fun (i : N) (name : string) => if b i then [name] else @nil string in
+            let first := if (rb =? 0)%N then "rollback_backup_not_supported"%string
+                         else if (rb =? 3)%N then "reserved"%string else "rollback_is_supported"%string in
+            Ok (PObj "ComponentPropertyGeneral" [("general"%string, PList (map PStr (
+              List.app [first] (List.app (opt 2%N "prepartion"%string) (List.app (opt 3%N "comparison"%string)
+              (List.app (opt 4%N "deferred_activation"%string) (opt 5%N "payload_cold_reset_required"%string)))))))])
+        end
+      else if sel =? 1 then version "ComponentPropertyCurrentVersion"%string
+      else if sel =? 2 then
+        match l with
+        | [] => Ok (PObj "ComponentPropertyDescriptionString" [])
+        | _ => Ok (PObj "ComponentPropertyDescriptionString"
+                     [("description"%string,
+                       PStr (fold_right (fun n acc => if (n =? 0)%N then acc else String (ascii_of_N n) acc) EmptyString l))])
+        end
+      else if sel =? 3 then version "ComponentPropertyRollbackVersion"%string
+      else if sel =? 4 then version "ComponentPropertyDeferredVersion"%string
+      else if (192 <=? sel) && (sel <? 255) then Err (OtherError NotImplementedErr)
+      else Ok PNone
   (* VersionField((major, minor)) *)
   | "version_field"%string, [PInt ma; PInt mi] =>
       if (mi <? 0) || (255 <? mi) || (ma <? 0) || (255 <? ma) then Err (OtherError OtherExc)
